@@ -69,6 +69,17 @@ def gen_header(rng, plain=False):
     if plain:
         return default_header(magic)
     snaplen = rng.choice([64, 256, 1514, 65535, 65535, 262144])
+    if rng.chance(20):
+        # full-range header values: every field is an opaque 16/32-bit quantity to a pcap reader
+        return {
+            "magic": magic,
+            "vmaj": rng.choice([0, 2, 0x7FFF, 0xFFFF, rng.range(0, 0xFFFF)]),
+            "vmin": rng.choice([0, 4, 0xFFFF, rng.range(0, 0xFFFF)]),
+            "zone": rng.choice([-2147483648, 2147483647, -1, rng.range(-86400, 86400)]),
+            "sigfigs": rng.choice([0xFFFFFFFF, 0x80000000, rng.range(0, 0xFFFFFFFF)]),
+            "snaplen": rng.choice([65536, 262144, 0x7FFFFFFF, 0xFFFFFFFF, rng.range(70000, 0xFFFFFFFF)]),
+            "linktype": rng.choice([0x44000001, 0x04000001, 0xFFFFFFFF, 0x80000001, 276, rng.range(0, 0xFFFFFFFF)]),
+        }
     return {
         "magic": magic,
         "vmaj": rng.choice([2, 2, 2, 1, 3]),
